@@ -752,6 +752,7 @@ func TestRun(t *testing.T) {
 	wg.Wait()
 	groups(rec, vr.Scale(40, 1500), seed)
 	slowHandshake(rec, vr.Scale(4, 24))
+	registry(rec, vr.Scale(40, 600))
 	rec.Assume("'closed only after more than the configured number of consecutive pings went unanswered' is read tolerantly: with R retries, closing at the (R+1)-th or the (R+2)-th consecutive failing tick is accepted, earlier is a violation, later is a violation")
 	rec.Assume("on a real connection a late pong for a superseded ping is itself a received message and therefore resets the count; the not-credited rule is checked on the KeepAlive object")
 	rec.Assume("server-side wiring is covered by the group runs: one option applied once to a udp/dtls/tcp server configuration (and to client configurations), R+2..R+6 connections created from that configuration's monitor factory, each judged by the single-connection model while its siblings run concurrently")
